@@ -8,6 +8,7 @@ import shutil
 import tempfile
 
 from lib import common as C
+from lib import lockskel as LS
 from lib import histgen as G
 from lib import histprops as P
 
@@ -55,6 +56,36 @@ def gen_case(rng, cid):
             if g.startswith("begin"):
                 ntx += 1
                 live.append(ntx)
+    ls += ["drain", "end"]
+    return "\n".join(ls)
+
+
+def gen_tx_case(rng, cid):
+    """transaction-heavy programs: several handles whose first writes, commits and rollbacks run concurrently (the pools of
+    version stores and nodes, the registry and the store map are hit from both sides)"""
+    ls = ["case %s roots=%d" % (cid, rng.choice([1, 2])), "keytab 6b31 6b32 6b33"]
+    v, ntx = 0, 0
+    for _ in range(rng.randint(2, 4)):
+        k = rng.randint(3, 5)
+        ls.append("par " + " || ".join("begin " + rng.choice(["RU", "RC", "RR", "SER"]) for _ in range(k)))
+        hs = list(range(ntx + 1, ntx + k + 1))
+        ntx += k
+        grp = []
+        for h in hs[: k // 2 + 1]:
+            v += 1
+            grp.append("set %d %d %d %d s" % (h, rng.randint(1, 3), v, rng.choice([1, 5, 2049])))
+        ls.append("par " + " || ".join(grp))
+        grp = []
+        for h in hs:
+            x = rng.random()
+            if h in hs[: k // 2 + 1]:
+                grp.append("%s %d" % ("commit" if x < 0.7 else "rollback", h))
+            else:
+                v += 1
+                grp.append("set %d %d %d 3 s" % (h, rng.randint(1, 3), v))      # a first write racing with the commits
+        grp.append(rng.choice(["gc", "keys 0", "get 0 1 g"]))
+        ls.append("par " + " || ".join(grp))
+        ls.append("par " + " || ".join("%s %d" % (rng.choice(["commit", "rollback"]), h) for h in hs[k // 2 + 1:]) + " || get 0 2 g")
     ls += ["drain", "end"]
     return "\n".join(ls)
 
@@ -112,9 +143,13 @@ def run(rep):
     rng = C.rng_for(rep.seed, "c15")
     proof_ok = C.proof_step(rep, "C15")
     racebin = C.ensure_harness(race=True)
+    sk = LS.check(rep, C.ensure_harness(), ["Store", "UpdateTx", "DeleteOld", "DeleteTx", "Get", "GetFiles",
+                                             "core.", "dir.", "txrepo.", "di."])
     corpus = P.corpus("c15.txt")
     n = 60 if rep.tier == "quick" else 1200
-    cases = corpus + [gen_case(rng, "r%d" % i) for i in range(n)]
+    if LS.broken(sk):
+        n = max(n, 400)
+    cases = corpus + [gen_case(rng, "r%d" % i) for i in range(n)] + [gen_tx_case(rng, "t%d" % i) for i in range(n // 2)]
     total, fsdb_reports, harness_reports, bad = 0, {}, 0, 0
     per_mode = {}
     for mode in ("inline", "grpc"):
@@ -155,6 +190,7 @@ def run(rep):
         traces_validated_against_impl=total, proof_ok=proof_ok,
         samples=[dict(case=cases[len(corpus)].split("\n"))],
         partial_theorems=["C15_lockset_sound (the discipline implies race freedom; that the compiled code follows the discipline is the detector's part)"])
+    LS.conclude(rep, sk, 'every access of a version store under its lock, writes under the write lock: C15_core_accesses_protected')
     rep.assumptions = ["the Go race detector is sound for the schedules that occur (no false positives) and reports only races it observes: "
                        "a race on a schedule that did not occur in this run is missed",
                        "fsdb_access_table (location class -> protecting lock) is read from the source, not extracted from it",
